@@ -3,11 +3,21 @@
 format of specs/extdata/ParallelWriterTrace.tla.
 
 A *configuration* (``raw``) is what the specification calls one too:
-``{"size": [...], "obj": [...], "fail": [...], "cap": c, "mw": w, "maxShard": m}`` - tensor i has
-``size[i]`` bytes and is the tensor OBJECT ``obj[i]`` (two initializers may share one object); objects in
-``fail`` raise in ``tofile``; ``cap`` = max_in_flight_bytes; ``mw`` = max_workers; ``maxShard`` =
-max_shard_size_bytes (0: one file, written through the public ``convert_tensors_to_external``; otherwise
-through the public ``unload_from_model`` on a real ``ir.Model``).
+``{"size": [...], "obj": [...], "fail": [...], "cbfail": [...], "fkind": k, "cap": c, "mw": w, "maxShard": m}``
+- tensor i has ``size[i]`` bytes and is the tensor OBJECT ``obj[i]`` (two initializers may share one object);
+objects in ``fail`` raise when they are evaluated; the progress callback raises for the (1-based) tensor
+indices in ``cbfail``; ``fkind`` is the KIND of exception both raise (``KINDS``: RuntimeError, OSError, Abort
+- a BaseException that is not an Exception -, KeyboardInterrupt, SystemExit); ``cap`` = max_in_flight_bytes;
+``mw`` = max_workers; ``maxShard`` = max_shard_size_bytes (0: one file, written through the public
+``convert_tensors_to_external``; otherwise through the public ``unload_from_model`` on a real ``ir.Model``).
+One more key is harness-only (the specification has one atomic Write step): ``fmeth`` in ``METHODS`` says
+through which method of the tensor the bytes are produced / the failure is raised - ``tofile``, ``tobytes``
+(a tensor class WITHOUT ``tofile``: the code falls back to ``file.write(tensor.tobytes())``) or ``numpy``
+(``tofile`` of ir.Tensor calls ``numpy()``, which raises).
+
+The injected exceptions never leave the harness: pool threads store them in the future like the real
+``ThreadPoolExecutor`` does (``except BaseException``), the caller body and the serial reference catch
+``BaseException`` and recognise them by the ``vf_injected`` mark.
 """
 
 from __future__ import annotations
@@ -31,18 +41,55 @@ class InjectedWriteError(OSError):
     pass
 
 
+class InjectedRuntimeError(RuntimeError):
+    pass
+
+
+class AbortSignal(BaseException):
+    """A cancellation signal of an application: a BaseException that is NOT an Exception."""
+
+
+KINDS = {"OSError": InjectedWriteError, "RuntimeError": InjectedRuntimeError, "Abort": AbortSignal,
+         "KeyboardInterrupt": KeyboardInterrupt, "SystemExit": SystemExit}
+METHODS = ("tofile", "tobytes", "numpy")
+
+
+def make_exc(kind: str, what: str) -> BaseException:
+    try:
+        e = KINDS[kind](f"vf-injected {kind}: {what}")
+    except KeyError:
+        raise MachineryError(f"unknown failure kind {kind!r}") from None
+    e.vf_injected = True
+    return e
+
+
+def is_injected(e: BaseException) -> bool:
+    return bool(getattr(e, "vf_injected", False))
+
+
+def norm_raw(raw: dict) -> dict:
+    """Fill in the defaults of the optional keys (old recorded details have none of them)."""
+    out = dict(raw)
+    out.setdefault("cbfail", [])
+    out.setdefault("fkind", "OSError")
+    out.setdefault("fmeth", "tofile")
+    if out["fmeth"] not in METHODS:
+        raise MachineryError(f"unknown failure method {out['fmeth']!r}")
+    if out["fkind"] not in KINDS:
+        raise MachineryError(f"unknown failure kind {out['fkind']!r}")
+    return out
+
+
 def _tensor_class():
     import onnx_ir as ir
 
     class SchedTensor(ir.Tensor):
-        """An ordinary in-memory tensor whose ``tofile`` is a synchronisation point of the harness."""
+        """An ordinary in-memory tensor whose evaluation (``tofile``, or ``tobytes`` for the class without
+        ``tofile``) is a synchronisation point of the harness."""
 
-        def tofile(self, file) -> None:
+        def _vf_evaluate(self, produce):
+            """The monitored evaluation: [tid, obj] is in mon.eval while it lasts; one Write event."""
             env = _ENV
-            if env is None:
-                if self.vf_fail:
-                    raise InjectedWriteError(f"injected failure writing object {self.vf_obj}")
-                return super().tofile(file)
             ent = [env.tid(), self.vf_obj]
             if env.gated:
                 env.mon.eval.append(ent)
@@ -50,12 +97,16 @@ def _tensor_class():
                 with env.log:
                     env.mon.eval.append(ent)
             try:
-                env.park(None, label=f"tofile object {self.vf_obj}")
+                env.park(None, label=f"evaluate object {self.vf_obj} ({self.vf_meth})")
                 if self.vf_fail:
                     env.emit("Write", 0, failed=True)
-                    raise InjectedWriteError(f"injected failure writing object {self.vf_obj}")
-                file.write(self.tobytes())
+                    if self.vf_meth == "numpy":
+                        self.numpy()        # raises (below)
+                        raise MachineryError("numpy() of a failing tensor did not raise")
+                    raise make_exc(self.vf_kind, f"{self.vf_meth} of object {self.vf_obj}")
+                out = produce()
                 env.emit("Write", 0)
+                return out
             finally:
                 if env.gated:
                     env.mon.eval.remove(ent)
@@ -63,7 +114,36 @@ def _tensor_class():
                     with env.log:
                         env.mon.eval.remove(ent)
 
-    return SchedTensor
+        def numpy(self):
+            if self.vf_fail and self.vf_meth == "numpy":
+                raise make_exc(self.vf_kind, f"numpy of object {self.vf_obj}")
+            return super().numpy()
+
+        def tofile(self, file) -> None:
+            if _ENV is None:   # the serial reference
+                if self.vf_fail:
+                    if self.vf_meth == "numpy":
+                        self.numpy()
+                    raise make_exc(self.vf_kind, f"{self.vf_meth} of object {self.vf_obj}")
+                return super().tofile(file)
+            self._vf_evaluate(lambda: file.write(ir.Tensor.tobytes(self)))
+
+    class SchedTensorNoToFile(SchedTensor):
+        """A TensorProtocol implementation from before ``tofile`` existed: the writer falls back to
+        ``file.write(tensor.tobytes())``."""
+
+        @property
+        def tofile(self):
+            raise AttributeError("tofile")
+
+        def tobytes(self) -> bytes:
+            if _ENV is None:
+                if self.vf_fail:
+                    raise make_exc(self.vf_kind, f"tobytes of object {self.vf_obj}")
+                return super().tobytes()
+            return self._vf_evaluate(lambda: ir.Tensor.tobytes(self))
+
+    return SchedTensor, SchedTensorNoToFile
 
 
 _TCLS = None
@@ -73,12 +153,18 @@ def make_tensors(raw: dict) -> list:
     global _TCLS
     if _TCLS is None:
         _TCLS = _tensor_class()
+    raw = norm_raw(raw)
+    cls = _TCLS[1] if raw["fmeth"] == "tobytes" else _TCLS[0]
+    if raw["fmeth"] == "tobytes" and hasattr(cls(np.zeros((1,), dtype=np.uint8)), "tofile"):
+        raise MachineryError("the tensor class without tofile has one")
     objs = {}
     for sz, o in zip(raw["size"], raw["obj"]):
         if o not in objs:
-            t = _TCLS(np.full((sz,), o, dtype=np.uint8), name=f"obj{o}")
+            t = cls(np.full((sz,), o, dtype=np.uint8), name=f"obj{o}")
             t.vf_obj = o
             t.vf_fail = o in raw["fail"]
+            t.vf_kind = raw["fkind"]
+            t.vf_meth = raw["fmeth"]
             objs[o] = t
         elif objs[o].nbytes != sz:
             raise MachineryError(f"configuration gives object {o} two sizes")
@@ -95,6 +181,30 @@ def spec_sharded(raw: dict) -> bool:
             ns, sz, cnt = ns + 1, 0, 0
         sz, cnt = sz + nb, cnt + 1
     return ns > 1
+
+
+def writer_kinds(raw: dict) -> dict:
+    """Mirror of MkBase/MkCfg (used only to LABEL configurations; the spec decides conformance):
+    shard of every tensor, which shards get a parallel inner writer, and whether one tensor OBJECT is shared
+    between a serial shard and a parallel shard (MixedShared of the specification)."""
+    sharded = spec_sharded(raw)
+    shard_of, s, sz, cnt = [], 1, 0, 0
+    for nb in raw["size"]:
+        if raw["maxShard"] and sz + nb > raw["maxShard"] and cnt > 0:
+            s, sz, cnt = s + 1, 0, 0
+        sz, cnt = sz + nb, cnt + 1
+        shard_of.append(s)
+    ns = s
+    if not sharded:
+        return {"sharded": False, "par": [raw["mw"] > 1 and len(raw["size"]) > 1], "serial_shards": 0,
+                "parallel_shards": 1, "mixed": False, "mixed_shared": False}
+    nd = min(raw["mw"], ns)
+    ni = max(1, (raw["mw"] - nd) // nd)
+    par = [ni > 1 and shard_of.count(k) > 1 for k in range(1, ns + 1)]
+    mixed_shared = any(raw["obj"][i] == raw["obj"][j] and par[shard_of[i] - 1] and not par[shard_of[j] - 1]
+                       for i in range(len(shard_of)) for j in range(len(shard_of)))
+    return {"sharded": True, "par": par, "serial_shards": par.count(False), "parallel_shards": par.count(True),
+            "mixed": any(par) and not all(par), "mixed_shared": mixed_shared}
 
 
 def _call(raw: dict, tensors: list, base_dir: str, callback):
@@ -138,6 +248,7 @@ def run_serial(raw: dict, dirpath: str) -> Result:
     global _ENV
     _ENV = None
     _fresh(dirpath)
+    raw = norm_raw(raw)
     tensors = make_tensors(raw)
     cb = [0] * len(tensors)
     log = []
@@ -145,12 +256,18 @@ def run_serial(raw: dict, dirpath: str) -> Result:
     def callback(tensor, info):
         cb[info.index] += 1
         log.append((0, info.index, info.filename, info.offset))
+        if info.index + 1 in raw["cbfail"]:
+            raise make_exc(raw["fkind"], f"callback of tensor {info.index + 1}")
 
     sraw = dict(raw, mw=None)
     outcome, err, ext = "returned", None, None
     try:
         ext = _call(dict(sraw, mw=None), tensors, dirpath, callback)
-    except InjectedWriteError as e:
+    except MachineryError:
+        raise
+    except BaseException as e:  # noqa: BLE001 - KeyboardInterrupt / SystemExit are injected kinds
+        if not is_injected(e):
+            raise
         outcome, err = "raised", repr(e)
     names, files, _ = _read_files(dirpath)
     layout = [[getattr(x, "location", None), getattr(x, "offset", None), getattr(x, "length", None)] for x in ext] if ext else []
@@ -173,11 +290,15 @@ def _main_body(env, raw, tensors, dirpath, box):
                     env.mon.cb[info.index] += 1
                 env.mon.cb_log.append((t, info.index, info.filename, info.offset))
 
+            failing = info.index + 1 in raw["cbfail"]
+            extra = {"failed": True} if failing else {}
             if env.gated:
                 count()
-                env.emit("CbRun", info.index + 1)
+                env.emit("CbRun", info.index + 1, **extra)
             else:
-                env.emit("CbRun", info.index + 1, mutate=count)
+                env.emit("CbRun", info.index + 1, mutate=count, **extra)
+            if failing:
+                raise make_exc(raw["fkind"], f"callback of tensor {info.index + 1}")
         finally:
             if env.gated:
                 env.mon.incb.remove(t)
@@ -195,13 +316,12 @@ def _main_body(env, raw, tensors, dirpath, box):
         except MachineryError as e:
             env.error = env.error or e
             raise
-        except InjectedWriteError as e:
-            outcome, err = "raised", repr(e)
         except sched.RealWaitTimeout as e:
             outcome, err = "timeout", repr(e)
-        except BaseException as e:  # noqa: BLE001 - an unexpected exception type is reported, not swallowed
-            outcome, err = "raised", repr(e)
-            box["unexpected"] = repr(e)
+        except BaseException as e:  # noqa: BLE001 - injected kinds include KeyboardInterrupt / SystemExit;
+            outcome, err = "raised", repr(e)   # an unexpected exception is reported, not swallowed
+            if not is_injected(e):
+                box["unexpected"] = repr(e)
         box["outcome"], box["error"], box["ext"] = outcome, err, ext
         if outcome == "timeout":
             return
@@ -237,6 +357,7 @@ def run_gated(raw: dict, chooser, dirpath: str) -> Result:
     """One execution of the real code under the deterministic scheduler."""
     global _ENV
     _fresh(dirpath)
+    raw = norm_raw(raw)
     tensors = make_tensors(raw)
     env = sched.GatedEnv(len(tensors), spec_sharded(raw), chooser)
     box: dict = {}
@@ -256,6 +377,7 @@ def run_real(raw: dict, dirpath: str, timeout: float = 45.0) -> Result:
     """One execution with real threads; wrappers only log."""
     global _ENV
     _fresh(dirpath)
+    raw = norm_raw(raw)
     tensors = make_tensors(raw)
     box: dict = {}
     env = sched.RealEnv(len(tensors), spec_sharded(raw))
@@ -283,13 +405,20 @@ def run_real(raw: dict, dirpath: str, timeout: float = 45.0) -> Result:
                 if quiet >= timeout:
                     break
             if th.is_alive() or box.get("outcome") == "timeout":
-                env.deadlock = {"blocked": [["?", "real threads did not finish"]], "idle": [], "obs": env._snapshot()}
+                env.deadlock = {"blocked": [["?", "real threads did not finish"]], "idle": [], "obs": env._snapshot(),
+                                "why": "deadlock"}
                 with env.log:
                     env.events.append({"t": 0, "op": "Deadlock", "i": 0, "cmp": 0, "post": env._snapshot()})
                     nev = len(env.events)
                 env.abort()
                 th.join(10)
+                env.drain(10)
                 del env.events[nev:]
+            else:
+                # pool threads the code under test left running when it returned to the caller (that is what
+                # ErrJoin forbids - the Return event already shows them in `busy`): let them finish, so that
+                # their events are in the trace and nothing runs into the next execution
+                env.drain(60)
         finally:
             _ENV = None
     if env.error is not None:
@@ -299,13 +428,15 @@ def run_real(raw: dict, dirpath: str, timeout: float = 45.0) -> Result:
 
 # ---------------------------------------------------------------------------------------------------
 def trace_of(res: Result) -> dict:
-    return {"cfg": {k: res.raw[k] for k in ("size", "obj", "fail", "cap", "mw", "maxShard")},
+    raw = norm_raw(res.raw)
+    return {"cfg": {k: raw[k] for k in ("size", "obj", "fail", "cbfail", "fkind", "fmeth", "cap", "mw", "maxShard")},
             "mode": res.mode, "ev": res.events}
 
 
 def schedule_key(res: Result):
-    return (tuple(res.raw["size"]), tuple(res.raw["obj"]), tuple(res.raw["fail"]), res.raw["cap"], res.raw["mw"],
-            res.raw["maxShard"], tuple((e["t"], e["op"], e["i"]) for e in res.events))
+    raw = norm_raw(res.raw)
+    return (tuple(raw["size"]), tuple(raw["obj"]), tuple(raw["fail"]), tuple(raw["cbfail"]), raw["fkind"], raw["fmeth"],
+            raw["cap"], raw["mw"], raw["maxShard"], tuple((e["t"], e["op"], e["i"]) for e in res.events))
 
 
 def explore_dfs(raw: dict, dirpath: str, bound: int, limit: int):
